@@ -361,7 +361,48 @@ def r19_5b(chk):
     c13.check_identifier_form(chk, "R19.5")
 
 
+def r19_6(chk):
+    chk.rule("R19.6", "atomic_write removes only what it created: the directory it deletes afterwards (the parent of its temporary file) is, on every path through _make_tmppath, the result of mkdtemp() -- never a directory the caller supplied through `tmpdir`, whose other contents (possibly the destination itself) would be deleted with it")
+    from ..slicing import Slicer
+
+    m = chk.repo.module(IO)
+    fn = m.func("atomic_write._make_tmppath")
+    rets = [r for r in walk_no_nested(fn) if isinstance(r, ast.Return) and r.value is not None]
+    if not rets:
+        raise AnalysisError("atomic_write._make_tmppath: no return")
+    sl = Slicer(m)
+    # mkdtemp() returns a fresh directory wherever it is asked to make it: do not slice into its arguments
+    sl.stop = lambda e: isinstance(e, ast.Call) and (call_name(e) or "").split(".")[-1] == "mkdtemp"
+    ps = [p for p in params_of(fn) if p != "self"]
+    for r in rets:
+        node = sl.node_of(fn, r.value)
+        origins = []
+        sl.origins(fn, node, r.value, lambda e, f, origins=origins: origins.append(e))
+        # the directory part: left operand of `<dir> / <name>` somewhere in the slice
+        dirs = [e.left for e in origins if isinstance(e, ast.BinOp) and isinstance(e.op, ast.Div)]
+        if not dirs:
+            chk.unresolved("R19.6", key(m, "atomic_write._make_tmppath", "temporary directory is its own"), m.loc(r), "the returned path is not of the form <dir> / <name>")
+            continue
+        bad = []
+        made = False
+        for dexpr in dirs:
+            dn = sl.node_of(fn, dexpr)
+            dor = []
+            sl.origins(fn, dn, dexpr, lambda e, f, dor=dor: dor.append(e))
+            if any(isinstance(e, ast.Call) and (call_name(e) or "").split(".")[-1] == "mkdtemp" for e in dor):
+                made = True
+            # a branch in which the directory IS the parameter (not merely the place mkdtemp works in)
+            for e in dor:
+                if isinstance(e, ast.IfExp):
+                    for arm in (e.body, e.orelse):
+                        if not any(isinstance(x, ast.Call) and (call_name(x) or "").split(".")[-1] == "mkdtemp" for x in ast.walk(arm)) and any(isinstance(x, ast.Name) and x.id in ps for x in ast.walk(arm)):
+                            bad.append(arm)
+        chk.decide(made and not bad, "R19.6", key(m, "atomic_write._make_tmppath", "temporary directory is its own"), m.loc(bad[0] if bad else r), "the directory of the temporary file always comes from mkdtemp()", f"`{norm(bad[0]) if bad else norm(r.value)}` makes the caller's directory the 'temporary directory': the commit and the failure path then rmtree it, deleting everything the caller keeps there (with tmpdir=path.parent: the file just written)")
+    chk.floor("R19.6", 1, "one temp-path constructor")
+
+
 def run(chk):
+    r19_6(chk)
     r19_5b(chk)
     r19_1(chk)
     r19_2(chk)
